@@ -1356,6 +1356,9 @@ def worker_main(spec_path):
                         thorough, f"{len(hogs)} spinners" if hogs else "none")
             finally:
                 _kill(hogs)
+        elif spec["mode"] == "refmodel":
+            used = guarded(ctx, f"refmodel[{tag}]", refmodel, ctx, L, spec["n_cases"], base, None, "R", spec["threads"], True)
+            ctx.note(f"refmodel_thread_counts_used[{tag}]", {"layer": L.numba.threading_layer() if used else None, "threads": used})
         elif spec["mode"] == "sanitizer":
             nb = L.numba
             live = False
@@ -1446,7 +1449,7 @@ def plan_jobs(ctx):
     if q:
         sched("workqueue", "workqueue", 0, "PASSIVE", THREADS_QUICK, 40, 8, 11)
         jobs.append(Job({**common, "mode": "sanitizer", "tag": "boundscheck", "threads": [1, 2, 4], "reps_kernel": 3, "reps_list": 1,
-                         "n_cases": 400, "real_kernels": False, "stream": 12},
+                         "n_cases": 600, "real_kernels": False, "stream": 12},
                         {"NUMBA_BOUNDSCHECK": "1", "NUMBA_NUM_THREADS": nthr, "OMP_WAIT_POLICY": "PASSIVE"}, timeout))
     else:
         sched("omp", "omp", 0, "PASSIVE", THREADS_FULL, 40, 10, 21)
@@ -1457,6 +1460,11 @@ def plan_jobs(ctx):
         jobs.append(Job({**common, "mode": "sanitizer", "tag": "boundscheck", "threads": [1, 2, 3, 4, 7, 16], "reps_kernel": 5, "reps_list": 2,
                          "n_cases": 3000, "real_kernels": True, "stream": 26},
                         {"NUMBA_BOUNDSCHECK": "1", "NUMBA_NUM_THREADS": nthr, "OMP_WAIT_POLICY": "PASSIVE"}, timeout))
+        for tag, layer, stream in (("refmodel-omp", "omp", 28), ("refmodel-workqueue", "workqueue", 29)):
+            # the sharded main processes run with a small thread pool: the full thread sweep of the reference-model cases is here
+            jobs.append(Job({**common, "mode": "refmodel", "tag": tag, "threads": list(THREADS_FULL), "n_cases": 8000, "stream": stream},
+                            {"NUMBA_THREADING_LAYER": layer, "NUMBA_NUM_THREADS": nthr, "OMP_WAIT_POLICY": "PASSIVE", "NUMBA_BOUNDSCHECK": None},
+                            timeout))
         jobs.append(Job({**common, "mode": "sanitizer", "tag": "boundscheck-workqueue", "threads": [1, 2, 5, 16], "reps_kernel": 3,
                          "reps_list": 1, "n_cases": 600, "real_kernels": False, "stream": 27},
                         {"NUMBA_BOUNDSCHECK": "1", "NUMBA_NUM_THREADS": nthr, "NUMBA_THREADING_LAYER": "workqueue"}, timeout))
@@ -1502,7 +1510,7 @@ def run(ctx):
                 guarded(ctx, "structure", structure, ctx, L)
                 guarded(ctx, "canonical", canonical, ctx, L)
             guarded(ctx, "monomial_pairs", monomial_pairs, ctx, L, ctx.pick(2, 3), base)
-            used = guarded(ctx, "refmodel", refmodel, ctx, L, ctx.pick(3000, 100000), base, None, "R",
+            used = guarded(ctx, "refmodel", refmodel, ctx, L, ctx.pick(5000, 200000), base, None, "R",
                            ctx.pick(THREADS_QUICK + (1, 3), THREADS_FULL))
             ctx.note("refmodel_thread_counts_used", used)
             ctx.note("input_classes_seen(shape/coef)", dict(sorted(_CLASSES_SEEN.items())))
@@ -1541,7 +1549,8 @@ def run(ctx):
     ctx.require("Z:library executions under NUMBA_BOUNDSCHECK=1", 100)
     ctx.require("S:distinct iteration->thread partitions over thread counts (trip 126) [workqueue]", 2)
     if not ctx.quick:
-        for tag in ("omp", "omp+hogs", "workqueue+hogs", "omp-default-wait-policy", "boundscheck-workqueue"):
+        for tag in ("omp", "omp+hogs", "workqueue+hogs", "omp-default-wait-policy", "boundscheck-workqueue", "refmodel-omp",
+                    "refmodel-workqueue"):
             ctx.require(f"W:sub-process {tag} completed", 1)
         ctx.require("S:distinct iteration->thread partitions over thread counts (trip 126) [omp]", 2)
     elif one:
